@@ -59,6 +59,37 @@ def run(tier, prop=PROP, mode=MODE):
                           {"variant": b["variant"], "event": b["event"], "context": b["context"]})
         for ev in events[6:9]:
             chk.sample(ev)
+    if mode == "dispatch":
+        # argument / result fidelity of callback calls over the signature family (every parameter
+        # kind, guest-side boundary values, results beyond the guest range) under three guest ABIs
+        import os
+        sdrv = vp.build_many([("sig_driver", ["sig_driver.cpp"], ["-DVM_MAX_FUNCS=64"]),
+                              ("sig_driver_lp16", ["sig_driver.cpp"], ["-DVM_MAX_FUNCS=64", "-DABI_LP16"]),
+                              ("sig_driver_lp64u", ["sig_driver.cpp"], ["-DVM_MAX_FUNCS=64", "-DABI_LP64U"])])
+        sev = []
+        for abi in ("wasm32", "lp16", "lp64u"):
+            apath = os.path.join(wd, "sig_%s.ndjson" % abi)
+            p = vp.run([sdrv["sig_driver" + ("" if abi == "wasm32" else "_" + abi)], apath, str(vp.seed())], timeout=600)
+            if p.returncode != 0:
+                raise vp.Broken("sig_driver(%s) rc=%d %s" % (abi, p.returncode, p.stderr[-300:]))
+            for e in vp.read_ndjson(apath):
+                e["abi"] = abi
+                sev.append(e)
+        spath = os.path.join(wd, "sig.ndjson")
+        vp.write_ndjson(spath, sev)
+        r = vp.tlc(os.path.join(vp.SPEC, "Trace_Invoke.tla"), os.path.join(vp.SPEC, "Trace_Invoke_cb.cfg"), workers=1,
+                   name="Trace_Invoke_cb", timeout=600, env={"TRACE": spath})
+        res = r.printed("RESULT")
+        if len(res) != 1 or res[0]["n"] != len(sev):
+            raise vp.Broken("Trace_Invoke (callbacks) did not complete: " + r.out[-1200:])
+        ncb = sum(1 for e in sev if e["e"] == "cbcall")
+        if ncb == 0:
+            raise vp.Broken("no callback calls were recorded")
+        chk.add_tlc("Trace_Invoke (callbacks)", r, "constant-level evaluation of CbAllowed on %d recorded callback calls" % ncb)
+        for b in res[0]["bad"]:
+            chk.violation("callback call outside the %s Contract: %s" % (prop, str(sev[b - 1])[:600]), sev[b - 1])
+        total_ev += ncb
+        chk.cov["callback_signature_calls"] = ncb
     chk.count(evaluations=total_ev, distinct=len(t_vm) + len(t_nat), traces=total_trees)
     chk.cov["trees_enumerated"] = {"foreign_abi": len(t_vm), "native_abi": len(t_nat)}
     chk.cov["variants"] = [v[0] for v in cc.VARIANTS]
@@ -69,7 +100,8 @@ def run(tier, prop=PROP, mode=MODE):
                                   "variant after the first registration prefix"
     chk.assumptions += ["a guest calling an entry point whose callback was unregistered is outside C12 except as a "
                         "trap probe on the vm backend",
-                        "argument fidelity here covers the long-typed node/poison parameters and results; wider "
-                        "signature families are C11's"]
+                        "argument fidelity in the trees covers the long-typed node/poison parameters and results; every "
+                        "other parameter/result kind is covered by the callback signature family (17 signatures x 3 ABIs, "
+                        "flag-abort build)"]
     return chk.finish(rule="one evaluation = one recorded crossing event validated by TLC against CallsContract; "
                            "distinct_nontrivial = distinct call trees enumerated by TLC and executed")
